@@ -198,6 +198,27 @@ func c04Run(w *core.W) {
 			}
 		}
 	}
+	w.Family("closures-running-loops")
+	for _, mk := range []string{
+		"mkr = (n) -> () -> {\n  s = []\n  for i <- fromto(0, n) s = s + [i]\n  s\n}",
+		"mkr = (n) -> () -> {\n  s = []\n  for e <- elems(n) s = s + [e]\n  s\n}",
+		"mkr = (n) -> () -> for i <- fromto(0, #toa(n)) yield [i, n]",
+	} {
+		for _, args := range [][2]string{{"3", "5"}, {"\"abc\"", "\"de\""}} {
+			if strings.Contains(mk, "fromto(0, n)") && strings.Contains(args[0], "\"") {
+				continue
+			}
+			for _, use := range []string{"[ga(), gb()]", "[gb(), ga()]", "[ga(), gb(), ga()]", "{\n  r = []\n  for v <- ga() r = r + [v]\n  for v <- gb() r = r + [v]\n  r\n}", "{\n  r = []\n  for v, z <- gb(), ga() r = r + [[v, z]]\n  r\n}"} {
+				st := []string{mk, "ga = mkr(" + args[0] + ")", "gb = mkr(" + args[1] + ")", "run = () -> " + use, "run()", use}
+				if strings.Contains(use, "for v") != strings.Contains(mk, "yield") {
+					continue
+				}
+				if !emit(st) {
+					return
+				}
+			}
+		}
+	}
 	w.Family("recursive-definers")
 	for _, depth := range []int{3, 50, 200} {
 		for _, body := range []string{
